@@ -33,7 +33,8 @@ inductive Src
 
 inductive Handle
   /-- an object the library (or openpyxl on its behalf) opened on `src`:
-      slot 0 = the file itself / the zip archive of the workbook, slot i+1 = the member stream of sheet i -/
+      slot 0 = the file itself, slot 1 = the zip archive object of the workbook (it sits on the file of slot 0
+      or on the caller's stream), slot i+2 = the member stream of sheet i -/
   | lib (src : Src) (slot : Nat)
   /-- the caller's own stream object -/
   | caller (s : Nat)
@@ -77,14 +78,22 @@ def under (hs : List Handle) (t : Trace) : Trace := t.map (Ev.push hs)
 
 /-- what a context-manager expression does -/
 inductive Ctx
-  | acquire (h : Handle)   -- `open(p)`, `closing(load_workbook(p))`: opens h on entry, closes h on exit
+  | acquire (h : Handle)   -- `open(p)`: opens h on entry, closes h on exit
+  /-- `closing(load_workbook(x))`: building the object can fail half-way (not a workbook).  `deferred = false`: x is a
+      file object that is already open — when loading fails nothing new is held; `deferred = true`: x is a path that
+      openpyxl opens itself — when loading fails the descriptor stays with the frames of the traceback -/
+  | acquireLoad (h : Handle) (deferred : Bool)
   | null                   -- `nullcontext(x)`
   | closeArg (h : Handle)  -- `closing(x)` / `with x:` for an object that was open before: exit closes it
   deriving DecidableEq, Repr
 
+def noCleanup : Cleanup := ⟨[], []⟩
+
 /-- `with c: t` -/
 def withC : Ctx → Trace → Trace
   | .acquire h, t => .acq h :: under [h] t ++ [.rel h]
+  | .acquireLoad h false, t => .gap noCleanup :: .acq h :: under [h] t ++ [.rel h]
+  | .acquireLoad h true, t => .acq h :: .gap ⟨[], [h]⟩ :: under [h] t ++ [.rel h]
   | .null, t => t
   | .closeArg h, t => under [h] t ++ [.rel h]
 
@@ -97,7 +106,6 @@ def finallyClose (h : Handle) (t : Trace) : Trace := under [h] t ++ [.rel h]
 /-- `yield from <generator running t>`: next / close / throw are forwarded, nothing else happens -/
 def deleg (t : Trace) : Trace := t
 
-def noCleanup : Cleanup := ⟨[], []⟩
 
 /-- `parse_blocks(rows)` over rows whose source is managed by somebody else (the lines of `f` in read_csv):
     `n` blocks are produced -/
@@ -264,14 +272,16 @@ def Row.closeCalls (r : Row) : List String := r.2.2.2.2
     checked by the correspondence run. -/
 inductive CtxSem
   | openIfPath       -- `either(nullcontext(<param>), open(<param>))`: open for a path, nullcontext for a stream
-  | closingWorkbook  -- `closing(openpyxl.load_workbook(<param>))`
+  | closingWorkbook  -- `closing(openpyxl.load_workbook(<local>))`: the workbook over the file object opened just before
+  | closingWorkbookByPath  -- `closing(openpyxl.load_workbook(<param>))`: openpyxl opens the path itself (before D35)
   | closingRows      -- `closing(<local>)` in read_excel: the lazy row iterator handed out by read_sheets
   | openPath         -- `open(<param>)` (write_excel_openpyxl, only reached for a path-like target)
   deriving DecidableEq, Repr
 
 def interpCtx (e : String) : Option CtxSem :=
   if e = "either(nullcontext(<param>), open(<param>))" then some .openIfPath
-  else if e = "closing(openpyxl.load_workbook(<param>))" then some .closingWorkbook
+  else if e = "closing(openpyxl.load_workbook(<local>))" then some .closingWorkbook
+  else if e = "closing(openpyxl.load_workbook(<param>))" then some .closingWorkbookByPath
   else if e = "closing(<local>)" then some .closingRows
   else if e = "open(<param>)" then some .openPath
   else none
@@ -324,7 +334,9 @@ def ctxOf (c : CtxSem) (src : Src) : Ctx :=
   match c, src with
   | .openIfPath, .path _ => .acquire (.lib src 0)
   | .openIfPath, .stream _ => .null
-  | .closingWorkbook, _ => .acquire (.lib src 0)    -- the zip archive object, also over a caller's stream
+  | .closingWorkbook, _ => .acquireLoad (.lib src 1) false   -- the archive object, also over a caller's stream
+  | .closingWorkbookByPath, .path _ => .acquireLoad (.lib src 0) true
+  | .closingWorkbookByPath, .stream _ => .acquireLoad (.lib src 1) false
   | .closingRows, _ => .null                        -- accounted for by `lazyBlocks … managed`
   | .openPath, _ => .acquire (.lib src 0)
 
@@ -366,7 +378,7 @@ def rowsManaged (tbl : Table) : Bool :=
 def sheetBodies (src : Src) (managed : Bool) : Nat → List Sheet → List Trace
   | _, [] => []
   | i, sh :: shs =>
-    (if sh.read then deleg (lazyBlocks (.lib src (i + 1)) managed sh.pre sh.post) else []) ::
+    (if sh.read then deleg (lazyBlocks (.lib src (i + 2)) managed sh.pre sh.post) else []) ::
       sheetBodies src managed (i + 1) shs
 
 /-- excel.py read_excel: `for name, row_cell_iter in read_sheets(source):
@@ -460,10 +472,20 @@ def writeExcelXlsxwriter (opensAtCtor : Bool) (dst : Src) (n : Nat) : Trace :=
 
 /-! ### what the harness can see -/
 
-/-- files with an OS-level descriptor open: some library handle on the *path* is open -/
-def fdsOpen (s : St) : List Nat :=
+/-- does openpyxl open the workbook by path itself (source before D35)?  Then the archive and the member streams of
+    the sheets share ONE descriptor, which stays open while any of them is open.  In the current source the library
+    opens the file (slot 0) and hands the file object to openpyxl: the archive and the member streams sit on that
+    object and hold no descriptor of their own. -/
+def workbookSharesFd (tbl : Table) : Bool :=
+  match frameOf tbl "read_sheets" with
+  | .withs cs => cs.contains .closingWorkbookByPath
+  | _ => true
+
+/-- files with an OS-level descriptor open: the file object of slot 0 on the *path* is open, or (`shared`) any
+    library object on that path is -/
+def fdsOpen (shared : Bool) (s : St) : List Nat :=
   (s.opn.filterMap fun h => match h with
-    | .lib (.path f) _ => some f
+    | .lib (.path f) slot => if shared || slot == 0 then some f else none
     | _ => none).eraseDups
 
 /-- caller streams the library closed -/
